@@ -158,23 +158,45 @@ where
     let total = Mutex::new(Agg::default());
     let nthreads = threads().max(1);
     // std::thread::scope would do; plain spawn keeps the big-stack option open
+    // an OS thread that hosted a failed (panicked / deadlocked) shuttle execution is retired and
+    // replaced: the coroutine runtime keeps per-thread state that a torn-down execution may leave behind
+    let worker = || {
+        let mut local = Agg::default();
+        let mut retire = false;
+        loop {
+            let i = next.fetch_add(1, Ordering::Relaxed);
+            if i >= n {
+                break;
+            }
+            let r = f(i);
+            local.absorb(prop, i, r, keep_samples);
+            if crate::sched::take_retire() {
+                retire = true;
+                break;
+            }
+        }
+        total.lock().unwrap().merge(local, keep_samples);
+        retire
+    };
     std::thread::scope(|s| {
         for _ in 0..nthreads {
+            let worker = &worker;
             std::thread::Builder::new()
-                .stack_size(64 << 20)
-                .spawn_scoped(s, || {
-                    let mut local = Agg::default();
-                    loop {
-                        let i = next.fetch_add(1, Ordering::Relaxed);
-                        if i >= n {
-                            break;
-                        }
-                        let r = f(i);
-                        local.absorb(prop, i, r, keep_samples);
+                .stack_size(16 << 20)
+                .spawn_scoped(s, move || loop {
+                    let again = std::thread::scope(|s2| {
+                        std::thread::Builder::new()
+                            .stack_size(64 << 20)
+                            .spawn_scoped(s2, worker)
+                            .expect("spawn worker")
+                            .join()
+                            .unwrap_or(true)
+                    });
+                    if !again {
+                        break;
                     }
-                    total.lock().unwrap().merge(local, keep_samples);
                 })
-                .expect("spawn worker");
+                .expect("spawn supervisor");
         }
     });
     total.into_inner().unwrap()
